@@ -127,7 +127,90 @@ func Lib(repo, verif, scratch string) (*Overlay, error) {
 	if err := mapDir(o, filepath.Join(verif, "overlaysrc", "verifsync"), filepath.Join(repo, "verifsync")); err != nil {
 		return nil, err
 	}
+	// package-level state of the root package and the six minifier packages: a generated
+	// file per package hands out pointers to every package-level variable (found in the AST
+	// of the current tree, so a newly introduced global is covered automatically)
+	for _, pkg := range GlobalsPackages {
+		dir := filepath.Join(repo, pkg)
+		src, err := globalsFile(dir)
+		if err != nil {
+			return nil, err
+		}
+		name := "globals_" + strings.ReplaceAll(pkg, ".", "root") + ".go"
+		dst := filepath.Join(scratch, name)
+		if err := os.WriteFile(dst, src, 0o644); err != nil {
+			return nil, err
+		}
+		o.Replace[filepath.Join(dir, "verif_globals_gen.go")] = dst
+	}
 	return o, nil
+}
+
+// GlobalsPackages are the packages whose package-level state is digested by C13.
+var GlobalsPackages = []string{".", "css", "html", "js", "json", "svg", "xml"}
+
+// globalsFile generates verif_globals_gen.go for the package in dir.
+func globalsFile(dir string) ([]byte, error) {
+	files, err := goFiles(dir)
+	if err != nil {
+		return nil, err
+	}
+	pkgName := ""
+	var names []string
+	for _, f := range files {
+		fset := token.NewFileSet()
+		af, err := parser.ParseFile(fset, f, nil, parser.ParseComments)
+		if err != nil {
+			return nil, err
+		}
+		constrained := false
+		for _, cg := range af.Comments {
+			if cg.Pos() > af.Package {
+				break
+			}
+			for _, c := range cg.List {
+				if strings.HasPrefix(c.Text, "//go:build") || strings.HasPrefix(c.Text, "// +build") {
+					constrained = true
+				}
+			}
+		}
+		if constrained {
+			continue
+		}
+		if pkgName == "" {
+			pkgName = af.Name.Name
+		}
+		for _, d := range af.Decls {
+			gd, ok := d.(*ast.GenDecl)
+			if !ok || gd.Tok != token.VAR {
+				continue
+			}
+			for _, sp := range gd.Specs {
+				vs := sp.(*ast.ValueSpec)
+				for _, n := range vs.Names {
+					if n.Name != "_" {
+						names = append(names, n.Name)
+					}
+				}
+			}
+		}
+	}
+	if pkgName == "" {
+		return nil, fmt.Errorf("no package in %s", dir)
+	}
+	sort.Strings(names)
+	var b bytes.Buffer
+	fmt.Fprintf(&b, "// Code generated by /verif/overlaygen; DO NOT EDIT.\n\n//go:build verif\n\npackage %s\n\n", pkgName)
+	fmt.Fprintf(&b, "// VerifGlobals hands out the names of and pointers to every package-level variable.\nfunc VerifGlobals() ([]string, []any) {\n\treturn []string{")
+	for _, n := range names {
+		fmt.Fprintf(&b, "%q, ", n)
+	}
+	fmt.Fprintf(&b, "}, []any{")
+	for _, n := range names {
+		fmt.Fprintf(&b, "&%s, ", n)
+	}
+	fmt.Fprintf(&b, "}\n}\n")
+	return format.Source(b.Bytes())
 }
 
 // ---- clisim ----
